@@ -8,7 +8,7 @@
    on the request body (TOML decoder, model interpreter and initialisation, encoding/csv + caster, encoding/json,
    json.MarshalIndent, regexp) themselves return -- in the model that is the hypothesis [wf_request]. *)
 From Coq Require Import List String ZArith QArith Bool.
-From Crem Require Import Base.Res Engine EngineProofs.
+From Crem Require Import Base.Res Engine EngineProofs EngineAdmin.
 Import ListNotations.
 
 Section C15.
@@ -71,6 +71,38 @@ Theorem C15_undecodable_encoding_is_client_error : forall (s : state V) (r : req
   handle s r = Ok (resp, s') -> rs_status resp <> 200%nat.
 Proof. exact undecodable_encoding_refused. Qed.
 
+(* ---- the whole server: API multiplexer + admin multiplexer (status / shutdown) + the status handler on the API's "/" ---- *)
+Theorem C15_server_no_panic_partial : forall (qs : list (sreq V)) name version status,
+  forallb wf_sreq qs = true -> exists sv', server_run (init_server name version status) qs = Ok sv'.
+Proof.
+  intros qs name version status H.
+  destruct (server_run_never_panics qs (init_server name version status) Inv_init H) as (sv' & E & _). eauto.
+Qed.
+
+Theorem C15_server_status_documented : forall (sv : server V) q resp sv',
+  server_handle sv q = Ok (resp, sv') -> In (rs_status resp) [200; 400; 404; 405; 415; 500; 503]%nat.
+Proof. exact server_status_documented. Qed.
+
+Theorem C15_server_error_is_json : forall (sv : server V) q resp sv',
+  server_handle sv q = Ok (resp, sv') -> rs_status resp <> 200%nat -> rs_ctype resp = CtJson /\ rs_body resp = BErr.
+Proof. exact server_error_is_json. Qed.
+
+(* admin requests never touch the engine's resources; POST /shutdown is the only request that signals the shutdown,
+   and GET /status reports it afterwards *)
+Theorem C15_admin_requests_leave_engine : forall (sv : server V) m rt resp sv',
+  server_handle sv (ToAdmin m rt) = Ok (resp, sv') -> sv_engine sv' = sv_engine sv.
+Proof. exact admin_requests_leave_engine. Qed.
+
+Theorem C15_shutdown_signals : forall (sv : server V) resp sv',
+  server_handle sv (ToAdmin MPost AShutdown) = Ok (resp, sv') ->
+  sv_shutdowns sv' = S (sv_shutdowns sv) /\ sv_status sv' = "SHUTTING_DOWN"%string
+  /\ server_handle sv' (ToAdmin MGet AStatus) = Ok (status_doc sv', sv').
+Proof. exact shutdown_signals. Qed.
+
+Theorem C15_only_shutdown_signals : forall (sv : server V) q resp sv',
+  server_handle sv q = Ok (resp, sv') -> sv_shutdowns sv' <> sv_shutdowns sv -> q = ToAdmin MPost AShutdown.
+Proof. exact only_shutdown_signals. Qed.
+
 End C15.
 
 (* Non-vacuity: a concrete well-formed sequence that loads a scenario, writes, reads, and sends malformed input. *)
@@ -111,3 +143,9 @@ Print Assumptions C15_error_is_json.
 Print Assumptions C15_success_is_not_an_error_document.
 Print Assumptions C15_json_wellformed.
 Print Assumptions C15_undecodable_encoding_is_client_error.
+Print Assumptions C15_server_no_panic_partial.
+Print Assumptions C15_server_status_documented.
+Print Assumptions C15_server_error_is_json.
+Print Assumptions C15_admin_requests_leave_engine.
+Print Assumptions C15_shutdown_signals.
+Print Assumptions C15_only_shutdown_signals.
